@@ -645,6 +645,65 @@ def run_cases(run: lib.Run, gens, cov: LineCov | None = None, cov_every: int = 0
 
 
 
+# ----------------------------------------------------------------------------- one long-lived checker, changing contexts
+
+
+SEQ_TUPLES = [("user:a", "viewer", "doc:1", "c_ok"), ("user:b", "viewer", "doc:1", "c_lvl"), ("folder:f", "parent", "doc:2", "c_ok"),
+              ("user:a", "viewer", "folder:f", None), ("user:b", "viewer", "folder:f", "c_lvl")]
+SEQ_RULES = [["doc", [["viewer", ["u", ["this", ["t", "parent", "viewer"]]]]]], ["folder", [["viewer", "this"]]]]
+SEQ_REGISTRY = [["c_ok", {"k": "get", "key": "ok"}], ["c_lvl", {"k": "get", "key": "lvl"}]]
+SEQ_CONTEXTS = [None, {}, {"ok": True}, {"ok": False}, {"ok": True, "lvl": False}, {"ok": False, "lvl": True}, {"lvl": True}, {"other": 1}]
+SEQ_QUERIES = [("user:a", "viewer", "doc:1"), ("user:b", "viewer", "doc:1"), ("user:a", "viewer", "doc:2"), ("user:b", "viewer", "doc:2"),
+               ("user:c", "viewer", "doc:1")]
+SEQ_LATE_TUPLE = ("user:c", "viewer", "doc:1", None)
+
+
+def call_sequences(run: lib.Run) -> None:
+    """ONE long-lived checker is asked a SEQUENCE of batch_check / check calls under contexts that change from call to call (same keys
+    with other values, other keys, {} and None), a tuple being added to the store in between: an answer is a function of (store, rules,
+    registry, triple, context) and of nothing an earlier call left behind.  Every answer is compared with a FRESH checker over the same
+    store asked the same triple under the same context, and every batch with the individual checks (C12: "a batch check equals the
+    individual checks"; a relation granted under one context is not thereby derivable under another)."""
+    import itertools as it
+    cfg = {"tuples": [list(t) for t in SEQ_TUPLES], "rules": SEQ_RULES, "registry": SEQ_REGISTRY, "max_depth": 4, "max_nodes": 1000,
+           "deadline": {"mode": "step", "ms": NEVER_MS}, "context": None}
+    n_ctx = len(SEQ_CONTEXTS)
+    seqs = list(it.product(range(n_ctx), repeat=2)) + [s for s in it.product(range(n_ctx), repeat=3)
+                                                      if run.tier != "quick" or (s[0] * 64 + s[1] * 8 + s[2] + run.seed) % 3 == 0]
+    for seq in seqs:
+        for late in (None, 1):
+            CLOCK.arm(cfg["deadline"])
+            chk = build(cfg)
+            tuples = [list(t) for t in SEQ_TUPLES]
+            for step, ci in enumerate(seq):
+                if late is not None and step == late:
+                    chk.store.add(*SEQ_LATE_TUPLE[:3], caveat=SEQ_LATE_TUPLE[3])
+                    tuples.append(list(SEQ_LATE_TUPLE))
+                ctx = SEQ_CONTEXTS[ci]
+                batch = SEQ_QUERIES + [SEQ_QUERIES[0], SEQ_QUERIES[2]]
+                try:
+                    got_batch = chk.batch_check([tuple(q) for q in batch], context=ctx)
+                    got_single = [chk.check(*q, context=ctx) for q in SEQ_QUERIES]
+                    fresh = build({**cfg, "tuples": tuples})
+                    want = {q: fresh.check(*q, context=ctx) for q in SEQ_QUERIES}
+                except Exception as e:  # noqa: BLE001
+                    run.spec_failures.append({"part": "call sequence", "contexts": [SEQ_CONTEXTS[i] for i in seq], "step": step,
+                                              "why": f"a call raised {type(e).__name__}: {e}"})
+                    return
+                run.case(["seq", list(seq), late, step], True)
+                run.count("call-sequence step")
+                if list(got_batch) != [want[q] for q in batch] or got_single != [want[q] for q in SEQ_QUERIES]:
+                    run.spec_failures.append({
+                        "part": "call sequence", "tuples": tuples, "rules": SEQ_RULES, "registry": SEQ_REGISTRY,
+                        "contexts": [SEQ_CONTEXTS[i] for i in seq], "tuple_added_before_step": late, "step": step, "context": ctx,
+                        "batch": [list(q) for q in batch], "impl_batch": list(got_batch), "impl_single_same_checker": got_single,
+                        "fresh_checker_individual": [want[q] for q in batch],
+                        "why": "a checker that has answered earlier calls (other contexts / before a tuple was added) answers differently "
+                               "from a fresh checker over the same store under the same context: batch_check / check is not the "
+                               "individual derivability check"})
+                    return
+
+
 # ----------------------------------------------------------------------------- the translated source vs CPython
 
 
@@ -891,6 +950,8 @@ def check(run: lib.Run, audit: dict) -> int:
     run_cases(run, [small_scope(run), random_scope(run, scale=run.boost), reentrant_scope(run, scale=run.boost)], cov, cov_every=7)
     run.extra["anchored_line_coverage"] = cov.report()
     run.extra["clock_reads"] = CLOCK.reads
+    if not run.spec_failures:
+        call_sequences(run)
     violations = []
     if (run.disagreements or not ok_tr) and not run.spec_failures:
         scale = 5 if run.tier == "quick" else 1
@@ -904,7 +965,7 @@ def check(run: lib.Run, audit: dict) -> int:
             if "query" in c and c.get("limit_hit") is False and c["config"]["deadline"]["ms"] == NEVER_MS:
                 first = c
                 break
-        c = shrink(first)
+        c = first if first.get("part") == "call sequence" else shrink(first)
         path = run.write_replay("spec", {
             "what": "implementation output contradicts the C12 spec (Rbacx.Rebac.specOk = decidable Derivable, theorem c12_spec_decides): "
                     + first["why"],
